@@ -32,7 +32,23 @@ type Ctl struct {
 	// GateTxnOps: every Get/Set after the first inside a transaction is a scheduling point too (the thread then waits at the
 	// gate while its transaction is open, i.e. while the inner store is held by it).
 	GateTxnOps bool
+	// GateTxnEnd: the return of Commit/Abort is a scheduling point too (what a caller does between two of its
+	// transactions - reading in-memory bookkeeping, say - can then be separated from the transaction before it)
+	GateTxnEnd bool
 	openTxn    sync.Map // thread -> number of transactions it has open
+	// ThreadOf resolves the calling goroutine to a thread id for wrappers created with Thread == Dynamic (one file
+	// system object shared by all goroutines, as a mem.FS is)
+	ThreadOf func() int
+}
+
+// Dynamic as a wrapper's Thread: the thread is the calling goroutine's (Ctl.ThreadOf)
+const Dynamic = -2
+
+func (c *Ctl) tid(t int) int {
+	if t == Dynamic && c.ThreadOf != nil {
+		return c.ThreadOf()
+	}
+	return t
 }
 
 // HasOpenTxn reports whether the thread is between Transaction() and Commit()/Abort().
@@ -110,7 +126,7 @@ func Unwrap(b blob.Blob) blob.Blob {
 
 func (g *GBlob) gate(what string) {
 	if g.C.Gate != nil {
-		g.C.Gate(g.Thread, what)
+		g.C.Gate(g.C.tid(g.Thread), what)
 	}
 }
 func (g *GBlob) Bytes() []byte { return g.In.Bytes() }
@@ -166,7 +182,7 @@ type Plain struct {
 
 func (s *Plain) Get(ctx context.Context, path string) (keyvalue.FileRecord, error) {
 	if s.C.Gate != nil {
-		s.C.Gate(s.Thread, "get "+path)
+		s.C.Gate(s.C.tid(s.Thread), "get "+path)
 	}
 	if err := s.C.hit("get " + path); err != nil {
 		return nil, err
@@ -180,7 +196,7 @@ func (s *Plain) Get(ctx context.Context, path string) (keyvalue.FileRecord, erro
 
 func (s *Plain) Set(ctx context.Context, path string, src keyvalue.FileRecord) error {
 	if s.C.Gate != nil {
-		s.C.Gate(s.Thread, "set "+path)
+		s.C.Gate(s.C.tid(s.Thread), "set "+path)
 	}
 	if err := s.C.hit("set " + path); err != nil {
 		return err
@@ -207,8 +223,9 @@ func (s *Txn) Set(ctx context.Context, path string, src keyvalue.FileRecord) err
 }
 
 func (s *Txn) Transaction(o keyvalue.TransactionOptions) (keyvalue.Transaction, error) {
+	thread := s.C.tid(s.Thread)
 	if s.C.Gate != nil {
-		s.C.Gate(s.Thread, "txn")
+		s.C.Gate(thread, "txn")
 	}
 	if err := s.C.hit("transaction"); err != nil {
 		return nil, err
@@ -217,8 +234,8 @@ func (s *Txn) Transaction(o keyvalue.TransactionOptions) (keyvalue.Transaction, 
 	if err != nil {
 		return nil, err
 	}
-	s.C.txnOpened(s.Thread, 1)
-	return &txn{in: t, c: s.C, thread: s.Thread}, nil
+	s.C.txnOpened(thread, 1)
+	return &txn{in: t, c: s.C, thread: thread}, nil
 }
 
 type txn struct {
@@ -289,6 +306,9 @@ func (t *txn) SetHandler(path string, src keyvalue.FileRecord, contents blob.Blo
 func (t *txn) Commit(ctx context.Context) ([]keyvalue.OpResult, error) {
 	res, err := t.in.Commit(ctx)
 	t.close()
+	if t.c.Gate != nil && t.c.GateTxnEnd {
+		t.c.Gate(t.thread, "txn-end")
+	}
 	for i := range res {
 		if ferr, bad := t.failed[i]; bad {
 			res[i].Err, res[i].Record = ferr, nil
